@@ -346,6 +346,34 @@ def hex_cases(ctx):
             ctx.check('from_hex accepts', False, f'from_hex-raised-{type(exc).__name__}',
                       case, f'{type(exc).__name__}: {exc}')
         n += 1
+    # the sep= option: every printable ASCII character that is not a hex digit (regular-expression
+    # metacharacters included), one and two characters long
+    seps = [chr(c) for c in range(0x21, 0x7F) if chr(c) not in '0123456789abcdefABCDEF'] + ['::', '..', '\\d', '[0-9]', '.*', '(', 'x?']
+    good = [([0x90, 0x40, 0x41], '90{s}40{s}41'), ([0xF0, 0xF7], 'F0{s}F7'), ([0xF8], 'F8'), ([0xE3, 0, 0x7F], 'e3{s}00{s}7f')]
+    bad = ['90{s}40', '90{s}40{s}80', '90{s}40{s}40{s}40', 'F0{s}01', '{s}', '90{s}4', 'G0{s}00{s}00', '90 40{s}ZZ', 'F4', '80{s}80{s}80']
+    for sep in seps:
+        for want, tmpl in good:
+            text = tmpl.format(s=sep)
+            case = {'kind': 'hex-sep', 'text': text, 'sep': sep}
+            try:
+                m = Message.from_hex(text, sep=sep)
+                ctx.check('from_hex accepts', m.bytes() == want, 'from_hex-sep-differs', case, repr(m))
+            except Exception as exc:
+                ctx.check('from_hex accepts', False, f'from_hex-sep-raised-{type(exc).__name__}', case,
+                          f'{type(exc).__name__}: {exc}')
+            n += 1
+        for tmpl in bad:
+            text = tmpl.format(s=sep)
+            case = {'kind': 'hex-sep', 'text': text, 'sep': sep}
+            try:
+                m = Message.from_hex(text, sep=sep)
+                ctx.check('from_hex rejects', False, 'from_hex-sep-accepted', case, repr(m))
+            except ValueError:
+                ctx.count('from_hex rejects')
+            except Exception as exc:
+                ctx.check('exception class', False, f'from_hex-sep-{type(exc).__name__}', case,
+                          f'{type(exc).__name__}: {exc}')
+            n += 1
     return n
 
 
@@ -441,5 +469,5 @@ def replay(ctx, case):
         array_and_long_cases(ctx)
     elif case['kind'] == 'history':
         history_cases(ctx)
-    elif case['kind'] == 'hex':
+    elif case['kind'] in ('hex', 'hex-sep'):
         hex_cases(ctx)
